@@ -226,6 +226,7 @@ def check_shape(ctx, fb):
     c2 = ("b", ("bin", "Ge", ii, ("bin", "Add", *sorted([half, rpp], key=repr))))
     good = len(sp) == 3
     full_closure = None
+    full_kind = "closure"
     for p in sp:
         cm = cond_map(p)
         if set(cm) - {c1, c2}:
@@ -233,10 +234,12 @@ def check_shape(ctx, fb):
         full = cm.get(c1) is True or cm.get(c2) is True
         fe = [c for c in p.calls(r"::for_each$")]
         if full:
-            if len(fe) != 1 or fe[0][2][0] != st or fe[0][2][1][0] != "closure":
+            # the per-lane body is a closure or a named function handed to for_each
+            if len(fe) != 1 or fe[0][2][0] != st or fe[0][2][1][0] not in ("closure", "fn"):
                 good = False
             else:
                 full_closure = fe[0][2][1][1]
+                full_kind = fe[0][2][1][0]
         else:
             final = p.store.get((p.frame, -4))
             x = ("idx", st, mk_const("usize", 0))
@@ -248,8 +251,9 @@ def check_shape(ctx, fb):
         ctx.touch(cl)
         e5 = Engine(fb, inline=lambda i: False)
         cps = ret_paths(e5.run(cl))
-        x = P(2)
-        good = len(cps) == 1 and ac_normal(strip_upd(cps[0].store.get((cps[0].frame, -2)))) == ("fmul*", (x,) * 5)
+        k = 2 if full_kind == "closure" else 1        # a closure's first parameter is its environment
+        x = P(k)
+        good = len(cps) == 1 and ac_normal(strip_upd(cps[0].store.get((cps[0].frame, -k)))) == ("fmul*", (x,) * 5)
     ctx.check(good, "R09-4", PH + "sbox", "x^5 on every lane iff i < RF/2 or i >= RF/2+RP, else on lane 0 only; no other branch",
               "S-box layer deviates from: full rounds iff i < RF/2 or i >= RF/2+RP (x^5 on all lanes), partial rounds x^5 on lane 0", loc(sit))
     # ---- ark
@@ -288,6 +292,21 @@ def check_shape(ctx, fb):
                 want2 = {("idx", P(3), ("bin", "Add", i, P(4))), ("idx", cell[1], i)}
                 good = rv_ is not None and cint(rv_[0]) == 0 and rv_[1] in (("len", P(2)), ("len", cell[1])) and isinstance(v, tuple) and v[0] == "fadd" and set(v[1:]) in (want, want2) \
                     and not writes(b, only_params=False)[1:] 
+    if not good:
+        # third spelling: `for (i, elem) in state.iter_mut().enumerate() { *elem += c[it + i] }`
+        backs = [p for p in ap if p.kind == "backedge"]
+        if len(backs) == 1 and len(ret_paths(ap)) == 1 and not [a for p in ap for a, v in p.conds() if a[0] != "ok"]:
+            b = backs[0]
+            aa = b.calls(r"^std::ops::AddAssign::add_assign$")
+            others = [c for c in b.calls() if not re.search(r"AddAssign::add_assign$|Enumerate<I> as std::iter::Iterator>::next$|Iterator::enumerate$|::iter_mut$", c[1])]
+            if len(aa) == 1 and not others and not writes(b, only_params=False):
+                tgt, val = aa[0][2]
+                en = tgt[1] if isinstance(tgt, tuple) and tgt[0] == "field" and tgt[2] == ("f", "1") else None
+                src = en[1][2][0] if isinstance(en, tuple) and en[0] == "unwrap" and en[1][0] == "call" and en[1][1].endswith("Enumerate<I> as std::iter::Iterator>::next") else None
+                init = src[4] if isinstance(src, tuple) and src[0] == "phi" else None
+                over_state = init in (call("std::iter::Iterator::enumerate", P(2)), call("std::iter::Iterator::enumerate", call("core::slice::<impl [T]>::iter_mut", P(2))))
+                want = (("idx", P(3), ("bin", "Add", P(4), F(en, "0"))), ("idx", P(3), ("bin", "Add", F(en, "0"), P(4)))) if en else ()
+                good = over_state and val in want
     ctx.check(good, "R09-4", PH + "ark", "state[i] += c[it + i] for every lane", "round-constant layer deviates from state[i] += c[it + i] over all lanes", loc(ait))
     # ---- mix_2
     mit = fb.need(PH + "mix_2")
